@@ -35,7 +35,7 @@
 use self::errors::*;
 use crate::names::Name;
 use crate::qualified_names::QualifiedName;
-use crate::strings::ToFeelString;
+use crate::strings::{to_json_string, ToFeelString};
 use crate::types::FeelType;
 use crate::value_null;
 use crate::values::Value;
@@ -124,7 +124,7 @@ impl Jsonify for FeelContext {
       self
         .0
         .iter()
-        .map(|(name, value)| format!(r#""{}": {}"#, name, value.jsonify()))
+        .map(|(name, value)| format!("{}: {}", to_json_string(&name.to_string()), value.jsonify()))
         .collect::<Vec<String>>()
         .join(", ")
     )
